@@ -190,14 +190,20 @@ def similar(a, b, rtol, atol):
             return False
         if a.size == 0:
             return True
-        sc = max(float(np.nanmax(np.abs(a))), float(np.nanmax(np.abs(b))), 1e-300)
-        with np.errstate(invalid="ignore"):
-            d = np.abs(a - b)
-        d = np.where(np.isnan(a) & np.isnan(b), 0.0, d)
+        # non-finite entries (cost infinite outside the model's domain) must be the same entries; the scale comes from the finite ones
+        fin = np.isfinite(a) & np.isfinite(b)
+        if not np.array_equal(np.isnan(a), np.isnan(b)) or not np.array_equal(np.where(np.isinf(a), np.sign(a), 0), np.where(np.isinf(b), np.sign(b), 0)):
+            return False
+        if not fin.any():
+            return True
+        sc = max(float(np.max(np.abs(a[fin]))), float(np.max(np.abs(b[fin]))), 1e-300)
+        d = np.abs(a[fin] - b[fin])
         return bool(np.all(d <= rtol * sc + atol))
     if isinstance(a, float) and isinstance(b, float):
         if np.isnan(a) and np.isnan(b):
             return True
+        if np.isinf(a) or np.isinf(b):
+            return a == b
         return abs(a - b) <= rtol * max(abs(a), abs(b)) + atol
     if isinstance(a, dict) and isinstance(b, dict):
         return set(a) == set(b) and all(similar(a[k], b[k], rtol, atol) for k in a)
